@@ -9,8 +9,10 @@
 EXTENDS Giant, Json
 
 CONSTANTS MaxCalls, Parts     \* Parts subset of {"iter", "acc"}
-VARIABLES nc, nr, kind, col, lo, hi, calls, phase
-vars == <<nc, nr, kind, col, lo, hi, calls, phase>>
+VARIABLES nc, nr, kind, col, lo, hi, calls, phase, win
+vars == <<nc, nr, kind, col, lo, hi, calls, phase, win>>
+\* win = 0: the whole array; win = k > 0: the window of k columns starting at column 1 (its stride is the giant width)
+RC == IF win = 0 THEN nc ELSE Sm(win)
 
 GiantVals == {N(1, -1), N(1, 0), N(1, 1), N(2, 0), N(3, 1), N(4, -1)}
 Around(d) == {Sm(0), Sm(1), Plus(d, Sm(1)), d, BigMAX, N(1, 0)} \cup (IF Lt(Sm(0), d) THEN {Minus(d, Sm(1))} ELSE {})
@@ -20,29 +22,30 @@ Init == /\ \E s \in 1..3, g \in GiantVals, tall \in BOOLEAN :
              /\ (g = N(4, -1) => s = 1)                              \* 4U-1 is usize::MAX for the largest unit: only 1 line fits
              /\ nc = (IF tall THEN Sm(s) ELSE g) /\ nr = (IF tall THEN g ELSE Sm(s))
         /\ kind \in {"rows", "col", "cells", "acc"}
-        /\ \E c \in {Sm(0), Minus(nc, Sm(1))} : col = c
+        /\ win \in 0..2 /\ (win > 0 => (kind # "acc" /\ Lt(Sm(win), nc)))
+        /\ \E c \in {Sm(0), Minus(RC, Sm(1))} : col = c
         /\ (kind # "col" => col = Sm(0))
         /\ (kind = "acc" <=> "acc" \in Parts /\ ~("iter" \in Parts /\ kind # "acc"))
         /\ (kind # "acc" => "iter" \in Parts)
-        /\ lo = Sm(0) /\ hi = Items(nc, nr, kind) /\ calls = << >> /\ phase = "run"
+        /\ lo = Sm(0) /\ hi = Items(RC, nr, kind) /\ calls = << >> /\ phase = "run"
 
 Emit(cs, lo2, hi2) == PrintT(<<"CASE", ToJson([fam |-> "giant", t |-> "iter", nc |-> nc, nr |-> nr, kind |-> kind, col |-> col,
-                                                 calls |-> cs, lo |-> lo2, hi |-> hi2])>>)
+                                                 win |-> win, calls |-> cs, lo |-> lo2, hi |-> hi2])>>)
 DoIter(op, n) ==
     /\ kind \in {"rows", "col", "cells"} /\ Len(calls) < MaxCalls
     /\ (op = "index" => kind = "col")
-    /\ LET r == GApply(nc, nr, kind, lo, hi, op, n)
+    /\ LET r == GApply(RC, nr, kind, lo, hi, op, n)
            cs == Append(calls, [op |-> op, n |-> n, x |-> [res |-> r.res]])
        IN /\ Assert(Le(r.lo, r.hi) /\ IsNat(r.lo), <<"range", lo, hi, op, n>>)
           /\ lo' = r.lo /\ hi' = r.hi /\ calls' = cs
           /\ Emit(cs, r.lo, r.hi)
-    /\ UNCHANGED <<nc, nr, kind, col, phase>>
+    /\ UNCHANGED <<nc, nr, kind, col, phase, win>>
 IterCalls == \/ \E op \in {"next", "next_back", "len"} : DoIter(op, Sm(0))
-             \/ \E op \in {"nth", "nth_back", "index"}, n \in Valid(Minus(hi, lo)) \cup {nr, nc} : DoIter(op, n)
+             \/ \E op \in {"nth", "nth_back", "index"}, n \in Valid(Minus(hi, lo)) \cup {nr, nc, RC} : DoIter(op, n)
 
 \* (the quantifiers enclose the assignment of the primed variables, so that TLC enumerates every instance as a
 \* successor instead of evaluating a closed disjunction once)
-AccDone == phase' = "done" /\ UNCHANGED <<nc, nr, kind, col, lo, hi, calls>>
+AccDone == phase' = "done" /\ UNCHANGED <<nc, nr, kind, col, lo, hi, calls, win>>
 AccCalls == /\ kind = "acc" /\ phase = "run"
             /\ \/ \E op \in {"idx_coord", "idx_row", "col_idx"}, c \in Valid(nc), r \in Valid(nr) :
                     /\ PrintT(<<"CASE", ToJson([fam |-> "giant", t |-> "acc", nc |-> nc, nr |-> nr, op |-> op, c |-> c, r |-> r,
